@@ -201,7 +201,8 @@ ParseBase(oc, tb) == IF oc.op = "none" THEN tb
                      ELSE IF oc.relto # "none" THEN oc.relto ELSE oc.op
 OutBase(oc, b) == ParseBase(oc, TextBase(oc, b))
 GenBase(gc) == ParseBase(gc, "abs")
-ConfigsLossless == \A oc \in OrgConfigs, b \in Bases : Applicable(oc, b) => Readable(oc, TextBase(oc, b))
+SourceBases == {"abs", "org"}      \* records are decoded without origin or relativized to the zone origin
+ConfigsLossless == \A oc \in OrgConfigs, b \in SourceBases : Applicable(oc, b) => Readable(oc, TextBase(oc, b))
 
 \* ---- numeric boundary strings substituted into the numbers of a record's text
 Zs(k) == [i \in 1..k |-> "0"]
